@@ -91,6 +91,12 @@ func (k *KittyImage) Draw(win Window) {
 	if k.w > w || k.h > h {
 		return
 	}
+	if k.w == 0 || k.h == 0 {
+		// nothing to show: the image was never resized, or the last
+		// Resize left it without pixels (the terminal may still hold
+		// the larger picture of an earlier Resize)
+		return
+	}
 	col, row := win.Origin()
 	log.Trace("placing kitty image at cell %d,%d", col, row)
 	// the pid is a 32 bit number where the high 16bits are the width and
